@@ -135,10 +135,10 @@ where
         tier.pick(3_000, 14_000)
     }
     fn rule(&self) -> String {
-        "polynomial sizes 2^1..2^12 (quick) / 2^14 (thorough) covering the recursion-strategy switch, coefficients expanded from 1..16 generated seed elements (dense / sparse / zero / exact degree), offset in {1, generator, random non-zero}, blowup 1..128 (LDE domain capped at 2^16 / 2^17); evaluate_poly, serial_fft, evaluate_poly_with_offset, interpolate_poly(_with_offset), get_twiddles, get_inv_twiddles, infer_degree, permute_index vs Horner at offset*w^i (all points up to 256, generated sample positions above); non-trivial = non-constant polynomial".into()
+        "polynomial sizes 2^1..2^12 (quick) / 2^14 (thorough) covering the recursion-strategy switch, coefficients expanded from 1..16 generated seed elements (dense / sparse / zero / exact degree), offset in {1, generator, random non-zero}, blowup 1..128 (LDE domain capped at 2^16 / 2^17); evaluate_poly, serial_fft, evaluate_poly_with_offset, interpolate_poly(_with_offset), get_twiddles, get_inv_twiddles, infer_degree, permute_index, FftInputs::fft_in_place_raw on a flat row-major matrix of 1..9 columns for every count <= stride and offset (n <= 1024; transformed columns vs Horner, the other columns untouched) vs Horner at offset*w^i (all points up to 256, generated sample positions above); non-trivial = non-constant polynomial".into()
     }
     fn required_labels(&self, _t: Tier) -> Vec<String> {
-        vec!["offset=1".into(), "offset=generator".into(), "offset=other".into(), "blowup=1".into(), "blowup>1".into(), "poly=zero".into()]
+        vec!["offset=1".into(), "offset=generator".into(), "offset=other".into(), "blowup=1".into(), "blowup>1".into(), "poly=zero".into(), "raw:count<stride".into(), "raw:count=stride".into()]
     }
     fn strategy(&self, tier: Tier) -> BoxedStrategy<FftCase> {
         let d = E::EXTENSION_DEGREE;
@@ -215,6 +215,43 @@ where
             let mut vals: Vec<E> = from_els(&mvals_off);
             fft::interpolate_poly_with_offset(&mut vals, &itw, off);
             ensure!(to_els(&vals) == mp, "interpolate_poly_with_offset/model-values", "interpolating shifted model evaluations does not give the coefficients");
+        }
+
+        // the strided entry point FftInputs::fft_in_place_raw(twiddles, count, stride, offset): `count` interleaved
+        // transforms of the columns offset..offset+count of a row-major n x stride matrix held in one flat slice
+        // (output in permuted order, as fft_in_place); count == stride is what the library itself uses, the trait
+        // method is public for every count <= stride. The other columns must come back untouched.
+        if n >= 2 && n <= 1024 {
+            use winter_math::fft::fft_inputs::FftInputs;
+            let stride = 1 + pick_index(c.positions[1], 9);
+            let count = 1 + pick_index(c.positions[2], stride);
+            let offset = pick_index(c.positions[3], stride - count + 1);
+            obs.label(if count == stride { "raw:count=stride" } else { "raw:count<stride" });
+            let flat: Vec<E> = (0..n * stride).map(|k| p[k / stride] * E::from((k % stride + 1) as u32)).collect();
+            let mut got = flat.clone();
+            catch(|| <[E] as FftInputs<E>>::fft_in_place_raw(&mut got[..], &tw, count, stride, offset))
+                .map_err(|p| vf_core::Fail::new(format!("fft_in_place_raw/{}", p.key()), format!("fft_in_place_raw(count {count}, stride {stride}, offset {offset}) on {n} rows panicked: {}", p.msg)))?;
+            for &i in &pos {
+                let x = f.from_base(fp.pow(w, i as u128));
+                let base = rp::eval(&f, &mp, &x);
+                let row = bitrev(i, c.log_n);
+                for col in 0..stride {
+                    obs.comparisons += 1;
+                    if col >= offset && col < offset + count {
+                        ensure!(
+                            to_el(&got[row * stride + col]) == f.mul_base(&base, (col + 1) as u128),
+                            "fft_in_place_raw/value",
+                            "fft_in_place_raw(count {count}, stride {stride}, offset {offset}) on {n} rows: column {col} at permuted row {row} differs from direct evaluation at w^{i}"
+                        );
+                    } else {
+                        ensure!(
+                            got[row * stride + col] == flat[row * stride + col],
+                            "fft_in_place_raw/other-column-modified",
+                            "fft_in_place_raw(count {count}, stride {stride}, offset {offset}) on {n} rows modified column {col}, which is outside offset..offset+count"
+                        );
+                    }
+                }
+            }
         }
 
         // evaluate_poly_with_offset over the blown-up shifted domain
